@@ -48,7 +48,10 @@ func c02Contexts() []string {
 		`a @ end() + a`, `a + a @ end()`, `a @ start() + a`, `a offset 30s + a`, `a @ 600.000 + a`,
 		// the same selection when the query is answered by the fallback path (the
 		// per-query lookback has to reach that engine too)
-		`round(a)`, `sort(a offset 30s)`}
+		`round(a)`, `sort(a offset 30s)`,
+		// a pinned / offset selector that the default optimizers turn into a filter over
+		// the select of the other operand
+		`a{l="0"} @ 600.000 + a`, `a + a{l="0"} @ end()`, `a{l="0"} offset 30s + a`, `a{l="0"} @ 600.000 offset 45s + a`}
 }
 
 func init() {
@@ -115,6 +118,9 @@ func init() {
 					for _, q := range c02Contexts() {
 						oq := o
 						oq.Fallback = strings.HasPrefix(q, "round(") || strings.HasPrefix(q, "sort(")
+						if strings.Contains(q, `a{l="0"}`) {
+							oq.Optimizers = ""
+						}
 						for _, n := range nsteps {
 							// the grid contains t*: start = t* - k*step
 							k := n / 2
